@@ -358,3 +358,18 @@ def replay_case(module, subname, case):
     except Inconclusive:
         return None
     return None
+
+
+def interpreted_kernels():
+    """True when the pygyro kernels in use are the interpreted .py files (no compiled extension shadows them).  Only then are
+    strided / Fortran-ordered arguments handed to in-place entry points: a compiled extension may insist on contiguous data."""
+    import importlib
+    for name in ("pygyro.splines.spline_eval_funcs", "pygyro.splines.cubic_uniform_spline_eval_funcs",
+                 "pygyro.advection.accelerated_advection_steps", "pygyro.initialisation.initialiser_funcs"):
+        try:
+            m = importlib.import_module(name)
+        except Exception:
+            return False
+        if not str(getattr(m, "__file__", "")).endswith(".py"):
+            return False
+    return True
